@@ -394,6 +394,21 @@ func c13MappedOwnLocation(params []c13Member, mon *c13Mon, preJ, postJ *c13J, ps
 	}
 }
 
+// c13ForkDirThroughSymlink: after post-processing, is a fork directory or one of its ancestors
+// below outs/ a symlink (an aliased / symlinked output of a fork whose directory contains this
+// one)?  The real code then writes THROUGH that link; resolution of symlinked intermediate
+// directories is not modelled.
+func c13ForkDirThroughSymlink(after c13Tree, outsRoot string, dirs []string) bool {
+	for _, d := range dirs {
+		for p := d; len(p) > len(outsRoot) && strings.HasPrefix(p, outsRoot+"/"); p = filepath.Dir(p) {
+			if v := after[p]; strings.HasPrefix(v, "L") {
+				return true
+			}
+		}
+	}
+	return false
+}
+
 func c13MappedKey(class string) string {
 	if class == "separable" {
 		return "C13:mapped-materialise"
@@ -412,7 +427,37 @@ func (s *c13Sig) mroKeys(viaInner bool, keys []string) string {
 		enc.Encode(k)
 		fmt.Fprintf(&lit, "        %s: %d,\n", strings.TrimSpace(kb.String()), i+1)
 	}
-	return strings.Replace(src, "        \"k1\": 1,\n        \"b\": 2,\n", lit.String(), 1)
+	return strings.Replace(src, c13DefaultKeyLit, lit.String(), 1)
+}
+
+const c13DefaultKeyLit = "        \"k1\": 1,\n        \"b\": 2,\n"
+
+// c13ReplaceKeys: the split literal of a program generated with mapped = "map", with other fork keys.
+func c13ReplaceKeys(src string, keys []string) string {
+	var lit strings.Builder
+	for i, k := range keys {
+		var kb strings.Builder
+		enc := json.NewEncoder(&kb)
+		enc.SetEscapeHTML(false)
+		enc.Encode(k)
+		fmt.Fprintf(&lit, "        %s: %d,\n", strings.TrimSpace(kb.String()), i+1)
+	}
+	return strings.Replace(src, c13DefaultKeyLit, lit.String(), 1)
+}
+
+// c13OutNamesOfSrc: output file names of TOP's file-typed parameters.
+func c13OutNamesOfSrc(src string) []string {
+	_, _, ast, err := syntax.ParseSourceBytes([]byte(src), "c13.mro", nil, false)
+	if err != nil || ast.Callables.Table["TOP"] == nil {
+		return nil
+	}
+	var names []string
+	for _, p := range c13ParamsFromSyntax(&ast.TypeTable, ast.Callables.Table["TOP"].GetOutParams()) {
+		if p.Ty.hasFile() {
+			names = append(names, p.expectName())
+		}
+	}
+	return names
 }
 
 type c13MappedCase struct {
@@ -528,6 +573,9 @@ func c13DirectMapped(c *Ctx, r *Result, idx int, seed int64, fixedKeys []string,
 		perr = top.PostProcess()
 	}()
 	util.SetPrintLogger(devNullLogger{})
+	if dbg := os.Getenv("C13_MAPPED_CASE"); dbg != "" && dbg != "all" {
+		fmt.Fprintf(os.Stderr, "keys %q\nerr: %v\nlog:\n%s\n", keys, perr, lg.sb.String())
+	}
 	after := c13Snapshot([]string{root}, cs, c13SkipMeta)
 	raw, _ := top.ReadOuts()
 	order, orderOk := c13ForkOrder(lg.sb.String(), keys)
@@ -564,7 +612,12 @@ func c13DirectMapped(c *Ctx, r *Result, idx int, seed int64, fixedKeys []string,
 		for i := range d {
 			d[i] = strip(d[i]) + " (model = after)"
 		}
-		r.violate(Violation{Kind: "property", Key: "C13:outside-touched", What: "something outside the pipestance was modified by post-processing", Input: cas, Impl: d})
+		key, what := "C13:outside-touched", "something outside the pipestance was modified by post-processing"
+		if class != "separable" {
+			// a fork directory nested in another fork's output that is a symlink to an external directory
+			key, what = c13MappedKey(class), "fork directories overlap and one fork's outputs were written THROUGH another fork's symlinked output into a directory outside the pipestance"
+		}
+		r.violate(Violation{Kind: "property", Key: key, What: what, Input: cas, Impl: d})
 	}
 	c13WalkRecords("map", params, mon, outs, post, ps)
 	c13MappedOwnLocation(params, mon, outs, post, ps)
@@ -589,6 +642,10 @@ func c13DirectMapped(c *Ctx, r *Result, idx int, seed int64, fixedKeys []string,
 	if perr != nil && class != "separable" {
 		// mkdir failures (ENOTDIR below another key's file, EINVAL, ENAMETOOLONG) are not modelled
 		r.hist("mapped:model-skipped-syscall-error")
+		return
+	}
+	if class != "separable" && c13ForkDirThroughSymlink(after, outsRoot, dirs) {
+		r.hist("mapped:model-skipped-symlinked-fork-dir")
 		return
 	}
 	if !orderOk {
@@ -656,8 +713,16 @@ func c13MappedWitnesses(c *Ctx, r *Result) {
 }
 
 func c13MappedStream(c *Ctx, r *Result) {
+	if dbg := os.Getenv("C13_MAPPED_CASE"); dbg != "" && dbg != "all" {
+		// replay of one case: C13_MAPPED_CASE=<idx>:<mapped_seed>
+		var idx int
+		var seed int64
+		fmt.Sscanf(dbg, "%d:%d", &idx, &seed)
+		c13DirectMapped(c, r, idx, seed, nil, nil, "")
+		return
+	}
 	c13MappedWitnesses(c, r)
-	n := 260
+	n := 500
 	if c.Thorough {
 		n = 6000
 	}
